@@ -83,24 +83,55 @@ def run_case(c):
                 return res
         return {"ok": True, "evaluations": i["n"]}
     if k == "create_readback":
-        # the record create_schedule emits, listed back, parses to the same start / end / days
+        # the record create_schedule emits, listed back, parses to the same start / end / days; with dst_days the clock is
+        # pinned to the days around the DST transitions of two zones (a time that does not exist that day is skipped)
         from . import n_api
+        from . import n_c11
         rnd = random.Random(i["seed"])
         members = list(Days)
-        for n in range(i["n"]):
-            days = set(rnd.sample(members, rnd.randrange(0, 8)))
-            s, e = (f"{rnd.randrange(24):02d}:{rnd.randrange(60):02d}" for _ in range(2))
-            inp = {"dev_id": canon(bytes(3)), "dev_key": canon(b"\x00"), "R1": canon(bytes(44)), "R2": canon(b"x"), "now": 1700000000,
-                   "start": s, "end": e, "days": canon(days)}
-            r = n_api.run_operation("create_schedule", 1, inp)
-            w = r["writes"][1]
-            rec = bytes([rnd.randrange(8), 1, w[85], 1]) + w[87:95] + bytes(4)
-            got = list(get_schedules(bytes(45) + rec + bytes(4)))
-            ok = len(got) == 1 and got[0].days == days and got[0].start_time == s and got[0].end_time == e
-            if not ok:
-                return {"ok": False, "evaluations": n + 1, "detail": f"create({s},{e},{sorted(d.name for d in days)}) read back as "
-                        f"{got[0].start_time},{got[0].end_time},{sorted(d.name for d in got[0].days)}" if got else "nothing parsed"}
-        return {"ok": True, "evaluations": i["n"]}
+        settings = [(None, None)]
+        if i.get("dst_days"):
+            settings = []
+            for zone, days_ in (("America/New_York", [(2026, 3, 8), (2026, 11, 1), (2026, 3, 7)]), ("Australia/Lord_Howe", [(2026, 10, 4), (2026, 4, 5)])):
+                for d in days_:
+                    settings.append((zone, d))
+        saved = os.environ.get("TZ")
+        n = 0
+        try:
+            for zone, day in settings:
+                if zone:
+                    n_c11.set_zone(zone)
+                    noon = int(time.mktime(day + (12, 0, 0, 0, 0, -1)))
+                    cm = n_c11.fixed_today(noon)
+                    cm.__enter__()
+                try:
+                    for _ in range(max(1, i["n"] // len(settings))):
+                        days = set(rnd.sample(members, rnd.randrange(0, 8)))
+                        hm = [(rnd.randrange(24), rnd.randrange(60)) for _ in range(2)]
+                        if zone and not all(n_c11.exists_today(h, m) for h, m in hm):
+                            continue
+                        s, e = (f"{h:02d}:{m:02d}" for h, m in hm)
+                        inp = {"dev_id": canon(bytes(3)), "dev_key": canon(b"\x00"), "R1": canon(bytes(44)), "R2": canon(b"x"), "now": 1700000000,
+                               "start": s, "end": e, "days": canon(days)}
+                        r = n_api.run_operation("create_schedule", 1, inp)
+                        w = r["writes"][1]
+                        rec = bytes([rnd.randrange(8), 1, w[85], 1]) + w[87:95] + bytes(4)
+                        got = list(get_schedules(bytes(45) + rec + bytes(4)))
+                        n += 1
+                        ok = len(got) == 1 and got[0].days == days and got[0].start_time == s and got[0].end_time == e
+                        if not ok:
+                            return {"ok": False, "evaluations": n, "detail": f"zone {zone} date {day}: create({s},{e},{sorted(d.name for d in days)}) read back as "
+                                    + (f"{got[0].start_time},{got[0].end_time},{sorted(d.name for d in got[0].days)}" if got else "nothing")}
+                finally:
+                    if zone:
+                        cm.__exit__(None, None, None)
+        finally:
+            if saved is None:
+                os.environ.pop("TZ", None)
+            else:
+                os.environ["TZ"] = saved
+            time.tzset()
+        return {"ok": True, "evaluations": n}
     if k == "shipped":
         base = os.path.join(os.environ.get("PYVC_REPO", "/repo"), "tests", "testresources")
         n = 0
